@@ -6,8 +6,9 @@ settings module, class attributes and lru_caches are left as the previous step l
 step kinds
   {"op": "goals", "text", "goals": [...]}      GoalsAction's path: parse_program / normalize_program /
                                                RecBuilder / cli.common.get_moment with one shared solver dict
-  {"op": "plot",  "text", "goal"}              the analysis part of PlotAction.__call__ (it switches
-                                               settings.numeric_croots / numeric_roots on and never restores them)
+  {"op": "plot",  "text", "goals": [g]}        the REAL PlotAction.__call__ (--plot g --plot_expectation --plot_std) with the
+                                               simulator and the plot classes replaced by stubs that record the moments
+                                               handed to the plot (PlotAction switches settings.numeric_croots / numeric_roots on)
   {"op": "argv",  "flags": [...]}              what polar.py does first: ArgumentParser().parse_args() (writes settings)
   {"op": "names", "tags": [...]}               calls utils.identifiers.get_unique_var(tag) for each tag
 The answer lists, per step, a canonical record: types of the source variables, per goal the
@@ -118,6 +119,55 @@ def _analyze_goals(step, nvals, plot=False):
     return rec
 
 
+def _plot_action(step, nvals):
+    """PlotAction.__call__ as the CLI runs it for `--plot g --plot_expectation --plot_std`; only the simulation and
+    the drawing are stubbed"""
+    import cli.actions.plot_action as PA
+    rec = {"op": "plot", "counter_before": _counter(), "settings_before": _settings()}
+    n = sp.Symbol("n", integer=True)
+    g = step["goals"][0]
+    captured = {}
+
+    class FakeSim:
+        def __init__(self, *a, **k):
+            pass
+
+        def simulate(self, program, monoms, number_samples):
+            return None
+
+    class FakePlot:
+        def __init__(self, result, monom, *args, **kw):
+            captured["args"] = args
+
+        def draw(self):
+            pass
+
+        def save(self, name):
+            pass
+    fd, path = tempfile.mkstemp(suffix=".prob")
+    with os.fdopen(fd, "w") as f:
+        f.write(step["text"])
+    old = (PA.Simulator, PA.RunsPlot, PA.StatesPlot)
+    PA.Simulator, PA.RunsPlot, PA.StatesPlot = FakeSim, FakePlot, FakePlot
+    try:
+        args = Namespace(plot=g, plot_expectation=True, plot_std=True, simulation_iter=1, number_samples=1, states_plot=False,
+                         yscale="linear", anim_iter=False, anim_runs=False, anim_time=1.0, max_y=None, save=False, solvability_check=False)
+        PA.PlotAction(args)(path)
+        first, second = captured["args"][4], captured["args"][5]
+        rec["goals"] = []
+        for name, m in ((f"({g})**2", second), (g, first)):
+            rec["goals"].append({"goal": name, "closed_form": str(m), "is_exact": None, "solver": None,
+                                 "values": [_value(sp.sympify(m), n, i) for i in range(nvals)]})
+    except BaseException as e:  # noqa
+        rec["error"] = _err(e, "plot")
+    finally:
+        PA.Simulator, PA.RunsPlot, PA.StatesPlot = old
+        os.unlink(path)
+    rec["counter_after"] = _counter()
+    rec["settings_after"] = _settings()
+    return rec
+
+
 def task_history(task):
     """task: steps [...], nvals.  Returns {"steps": [record per step]}"""
     nvals = task.get("nvals", 7)
@@ -127,7 +177,7 @@ def task_history(task):
         if op == "goals":
             out.append(_analyze_goals(step, nvals))
         elif op == "plot":
-            out.append(_analyze_goals(step, nvals, plot=True))
+            out.append(_plot_action(step, nvals))
         elif op == "argv":
             from cli import ArgumentParser
             fd, path = tempfile.mkstemp(suffix=".prob")
